@@ -479,9 +479,12 @@ class FSM(addons.AddonPersistence, block.SBlock):
             for _ in range(self._ct_chainlimit):
                 if self._next_event:
                     # intermediate state: skip generated events and exit the state immediately
-                    self._run_cb('exit', self._state)
                     etype, data, newstate = self._next_event
                     self._next_event = None
+                    # from now on the actions are caused by the chained event
+                    fsm_event_data.set(
+                        types.MappingProxyType(data) if isinstance(data, MutableMapping) else data)
+                    self._run_cb('exit', self._state)
                 self.log_debug("state: %s -> %s (event: %s)", self._state, newstate, etype)
                 self._state = newstate
                 with self._enable_event:        # type: ignore[attr-defined]
